@@ -180,11 +180,15 @@ def acc_link(ctx):
     cargo_build(ctx, "h_core")
     # exhaustive, no history: three frames / one fault, two frames / two faults (thorough), capacity exact and generous
     link_mc(ctx, 4, "pair", "PairMsgs", 1, False)
+    link_mc(ctx, 4, "pair", "PairMsgs", 2, False)                              # three frames, two faults: 1.0e5 states
     link_mc(ctx, 5, "bytes", "BytesMsgs", 1, False)
     link_mc(ctx, 4, "pair", "PairMsgs2", 1, False, props="Delivers")          # liveness: everything sent is eventually through the loop
     if ctx.tier == "thorough":
         link_mc(ctx, 4, "pair", "PairMsgs2", 2, False, maxchunk=4)
         link_mc(ctx, 6, "pair", "PairMsgs", 1, False, maxchunk=5, fbytes="{0,1,2,3,255}")
+        link_mc(ctx, 5, "bytes", "BytesMsgs", 2, False, maxchunk=4)
+        link_mc(ctx, 4, "pair", "PairMsgs", 3, False)                          # three frames, three faults
+        link_mc(ctx, 5, "pair", "PairMsgs", 2, False, maxchunk=4, fbytes="{0,1,2,3,255}")
     # behaviours as vectors (history of chunks carried in the state)
     lines = set()
     for (n, t, m, f, c) in ctx.pick([(4, "pair", "PairMsgs2", 1, 3), (5, "bytes", "BytesMsgs2", 1, 2)],
